@@ -93,7 +93,7 @@ def make_target(tree, form, odb):
     return idx
 
 
-def one_exec(prior, target, form, delete, link, missing=()):
+def one_exec(prior, target, form, delete, link, missing=(), missing_dir=None):
     from dvc_data.index import build as ibuild
     from dvc_data.index import md5 as imd5
     from dvc_data.index.checkout import apply, compare
@@ -107,6 +107,10 @@ def one_exec(prior, target, form, delete, link, missing=()):
         odb = make_odb("local", w.p("cache"), type=[link])
         fill_cache(odb, missing)
         tgt = make_target(target, form, odb)
+        if missing_dir:
+            # the directory object of this (lazily loaded) top-level directory is not in storage
+            ent = tgt[(missing_dir,)]
+            os.unlink(odb.oid_to_path(ent.hash_info.value))
         old = imd5(ibuild(ws, LFS))
         errors = []
         try:
@@ -114,7 +118,7 @@ def one_exec(prior, target, form, delete, link, missing=()):
             # with an unavailable source dvc itself applies with update_meta=False (the default
             # re-stats every created path and raises after the callback has reported the entry)
             apply(diff, ws, LFS, storage="cache", onerror=lambda *a: errors.append(a),
-                  update_meta=not missing)
+                  update_meta=not (missing or missing_dir))
         except Exception as e:  # noqa: BLE001
             import traceback
 
@@ -125,6 +129,17 @@ def one_exec(prior, target, form, delete, link, missing=()):
         gotd = walk_dirs(ws)
         want = {rel: CONT[c] for rel, (c, _e) in target.items()}
         unavailable = {rel for rel, (c, _e) in target.items() if c in missing}
+        if missing_dir:
+            reported = {os.path.relpath(a[1], ws).replace(os.sep, "/") for a in errors if len(a) > 1 and a[1]}
+            if missing_dir not in reported:
+                had = "workspace-has-that-directory" if os.path.isdir(os.path.join(ws, missing_dir)) and \
+                    missing_dir in dirs_of(prior) else "workspace-lacks-that-directory"
+                viol.append((f"unloadable-directory-silently-skipped/{had}",
+                             f"{missing_dir}: errors={errors!r:.200} prior={sorted(prior)}"))
+            for rel in want:
+                if not rel.startswith(missing_dir + "/") and delete and got.get(rel) != want[rel]:
+                    viol.append(("available-entry-not-created-when-a-directory-is-unloadable", rel))
+            return viol, info
         if missing:
             # entries whose source is unavailable are reported, not silently skipped
             reported = {os.path.relpath(a[1], ws).replace(os.sep, "/") for a in errors if len(a) > 1 and a[1]}
@@ -232,6 +247,21 @@ def run_case(case):
                     sigs.add(sig)
                     res["viol"].append((sig, detail, {"prior": prior, "target": target, "form": "explicit",
                                                       "delete": delete, "link": "copy", "missing": ["c2"]}))
+    # a directory object that cannot be loaded
+    for target in targets[:: max(1, len(targets) // 16)]:
+        tops = sorted({rel.split("/")[0] for rel in target if "/" in rel})
+        for top in tops:
+            for delete in (True, False):
+                viol, info = one_exec(prior, target, "lazy", delete, "copy", missing_dir=top)
+                res["n"] += 1
+                res["trans"] += 2
+                res["vac"]["unloadable_dir_runs"] = res["vac"].get("unloadable_dir_runs", 0) + 1
+                for sig, detail in viol:
+                    if sig not in sigs:
+                        sigs.add(sig)
+                        res["viol"].append((sig, detail, {"prior": prior, "target": target, "form": "lazy",
+                                                          "delete": delete, "link": "copy", "missing": [],
+                                                          "missing_dir": top}))
     res["outcomes"] = sorted(res["outcomes"])
     res["nontrivial"] = sorted(res["nontrivial"])
     if case["i"] == 9:
@@ -243,7 +273,7 @@ def run_case(case):
 def replay(case):
     fix = lambda t: {k: tuple(v) for k, v in t.items()}  # noqa: E731
     return one_exec(fix(case["prior"]), fix(case["target"]), case["form"], case["delete"], case["link"],
-                    case.get("missing", []))[0]
+                    case.get("missing", []), case.get("missing_dir"))[0]
 
 
 def run(ctx):
@@ -253,7 +283,7 @@ def run(ctx):
         f"E2 depth 1-2: every pair of {len(priors)} prior workspaces x {len(targets)} targets over paths "
         "{a, a/z, d, d/x, d/s, d/s/y} (file<->directory kind changes at depth 1 and 2, two contents, exec bit) x "
         "target form {explicit entries, lazily loaded directory objects} x delete on/off x link type; real "
-        "build+md5+compare+apply, workspace walk, second compare; plus targets with an unavailable source object; "
+        "build+md5+compare+apply, workspace walk, second compare; plus targets with an unavailable source object and lazy targets whose directory object is not in storage (workspace with / without that directory); "
         "non-trivial = non-empty, different prior and target"
     )
     ctx.bound = {"priors": len(priors), "targets": len(targets),
@@ -264,7 +294,7 @@ def run(ctx):
         "(the property demands that executable entries become executable, not that the exec bit is ever cleared)",
         "without delete only files that are neither target paths nor in the way of a target path must survive",
     ]
-    ctx.require("kind_changes", "nested_kind_changes", "exec_targets", "unavailable_runs")
+    ctx.require("kind_changes", "nested_kind_changes", "exec_targets", "unavailable_runs", "unloadable_dir_runs")
     cs = []
     for i in range(len(priors)):
         links = ["copy"]
